@@ -19,8 +19,9 @@ this is true of the real classes is checked on every run by the translator-gener
 namespace Audit
 
 inductive AKind
-  | leaf        -- Numeric, Beta
+  | leaf        -- Numeric (and a Beta whose name plays no role in the case)
   | var | draws | rv
+  | beta | betaFixed   -- a named parameter, to be estimated / fixed (two id classes of `IdManager.prepare`)
   | op          -- any class using the default hooks
   | monteCarlo | integrate | panelTraj | logLogit | catalog
 deriving DecidableEq, Repr, Inhabited
@@ -41,6 +42,7 @@ inductive Fault
   | rvOutside (name : String)
   | varOutsideTraj (name : String)
   | mcNoDraws | mcNested | mcPanelNoTraj | intNoRv | trajNonPanel | logitKeys | logitChoice
+  | duplicateName (name : String)   -- `IdManager.prepare`: one name for two kinds of element
 deriving DecidableEq, Repr
 
 structure Db where
@@ -105,6 +107,89 @@ def topAuditExpr (d : ADag) (db : Db) (k : Nat) : List Fault :=
   ++ (checkRv d (k + 1) k).map .rvOutside
   ++ (if db.panel && embeds d .panelTraj (k + 1) k then (checkPanel d (k + 1) k).map .varOutsideTraj else [])
 
+/-! ### id assignment: `IdManager.prepare` (one name for two kinds of element) and
+`Variable.set_id_manager` (column absent from the data)
+
+`Expression.prepare` runs before the audit on the expression path (`get_value_c`,
+`get_value_and_derivatives`, `Database.add_column / define_variable / remove /
+values_from_database`); `BIOGEME.__init__` runs it (`reset_id_manager`) after the audit, and it is
+all that is left when the audit is skipped. -/
+
+/-- `dict_of_elementary_expression(the_type)`: names of all nodes of the kind below `k`.  Every
+operator class descends into all its children (generated table, column `namesReaches`); an
+elementary expression has no children, so the collector with `stop = what` never stops early. -/
+def names (d : ADag) (what : AKind) : Nat → Nat → List String := collect d what what
+
+/-- entries of a list that occur in it more than once -/
+def dupsOf (l : List String) : List String := l.filter (fun x => l.count x > 1)
+
+/-- the merged list of names of `IdManager.prepare`: per id class the *keys of a dict* (distinct),
+then all columns of the data, used by the formula or not -/
+def mergedNames (d : ADag) (db : Db) (k : Nat) : List String :=
+  (names d .beta (k + 1) k).eraseDups ++ (names d .betaFixed (k + 1) k).eraseDups
+    ++ (names d .rv (k + 1) k).eraseDups ++ (names d .draws (k + 1) k).eraseDups ++ db.cols
+
+/-- `IdManager.prepare`: "The following elementary expressions are defined more than once" -/
+def prepareFaults (d : ADag) (db : Db) (k : Nat) : List Fault :=
+  (dupsOf (mergedNames d db k)).eraseDups.map .duplicateName
+
+/-- `Variable.set_id_manager` on every variable of the formula: its two lookups (the merged index,
+which also holds the parameters / draws / random variables, then the index of the columns) both
+succeed exactly when the name is a column of the data; otherwise the library error is raised -/
+def setIdFaults (d : ADag) (db : Db) (k : Nat) : List Fault :=
+  ((names d .var (k + 1) k).filter (fun v => !db.cols.contains v)).map .unknownColumn
+
+def firstNonEmpty : List (List Fault) → List Fault
+  | [] => []
+  | l :: rest => if l.isEmpty then firstNonEmpty rest else l
+
+/-- the expression path in the order of the code: ids first (duplicates, then absent columns), then
+the audit and the placement rules; the first stage that reports anything raises -/
+def stagedExpr (d : ADag) (db : Db) (k : Nat) : List Fault :=
+  firstNonEmpty [prepareFaults d db k, setIdFaults d db k, topAuditExpr d db k]
+
+/-- `BIOGEME.__init__`: the audit (unless skipped), then the ids -/
+def stagedBio (d : ADag) (db : Db) (k : Nat) (skipAudit : Bool) : List Fault :=
+  firstNonEmpty [if skipAudit then [] else topAuditBio d db k, prepareFaults d db k, setIdFaults d db k]
+
+/-- elementary expressions have no children -/
+def LeafWF (d : ADag) : Prop :=
+  ∀ (k : Nat) (n : ANode), d[k]? = some n →
+    (n.kind = .beta ∨ n.kind = .betaFixed ∨ n.kind = .rv ∨ n.kind = .draws ∨ n.kind = .var) → n.children = []
+
+/-! ### data audit: `Database.__init__`, `Database._audit` (run again by `BIOGEME.__init__`) -/
+
+inductive DataFault
+  | nonNumeric (col : String) | nan | empty
+deriving DecidableEq, Repr
+
+/-- what the audit can see of one column: its dtype is a number type, some entry is null -/
+structure ColInfo where
+  name : String
+  numeric : Bool
+  hasNaN : Bool
+deriving Repr
+
+/-- the data frame the database holds *at the time of the call* (`database.data`) -/
+structure FrameInfo where
+  cols : List ColInfo
+  rows : Nat
+deriving Repr
+
+/-- `Database._audit` on the current frame -/
+def frameAudit (f : FrameInfo) : List DataFault :=
+  (f.cols.filter (fun c => !c.numeric)).map (fun c => .nonNumeric c.name)
+    ++ (if f.cols.any (·.hasNaN) then [.nan] else [])
+
+/-- `Database(...)`: "Database has no entry" is raised first, then the audit -/
+def dataAuditNew (f : FrameInfo) : List DataFault :=
+  if f.rows == 0 then [.empty] else frameAudit f
+
+/-- `BIOGEME(...)` audits the database again.  REPAIRED behaviour (finding F-C12-empty): the code
+at hand repeats `_audit` only, which does not test for an empty frame. -/
+def dataAuditBio (f : FrameInfo) : List DataFault :=
+  (if f.rows == 0 then [.empty] else []) ++ frameAudit f
+
 /-- a path of child edges from `a` down to `b` whose *proper ancestors of b* satisfy `P` -/
 inductive Path (d : ADag) (P : ANode → Prop) : Nat → Nat → Prop
   | refl (a : Nat) : Path d P a a
@@ -124,12 +209,14 @@ structure OpInfo where
   drawsReaches : List Bool
   rvReaches : List Bool
   panelReaches : List Bool
+  namesReaches : List Bool    -- dict_of_elementary_expression / set_id_manager reach the slot
 deriving Repr
 
 /-- the behaviour the model assumes of a class of the given kind -/
 def OpInfo.conforms (o : OpInfo) : Bool :=
   o.auditReaches.length == o.slots && o.drawsReaches.length == o.slots &&
   o.rvReaches.length == o.slots && o.panelReaches.length == o.slots &&
+  o.namesReaches.length == o.slots && o.namesReaches.all id &&
   o.auditReaches.all id &&
   (if o.kind == .monteCarlo then o.drawsReaches.all (!·) else o.drawsReaches.all id) &&
   (if o.kind == .integrate then o.rvReaches.all (!·) else o.rvReaches.all id) &&
